@@ -135,9 +135,10 @@ class Top(nn.Module):
 
 class Inner(nn.Module):
   did: int = 0
+  depth: int = 1          # how many setup-defined levels sit between this module and the polynomial module holding the variables
 
   def setup(self):
-    self.p = Poly(self.did)
+    self.p = Poly(self.did) if self.depth <= 1 else Inner(self.did, self.depth - 1)
 
   def __call__(self, *xs):
     return self.p(*xs)
@@ -149,7 +150,7 @@ class Outer(nn.Module):
   did: int = 0
 
   def setup(self):
-    self.inner = Inner(self.did)
+    self.inner = Inner(self.did, DESCS[self.did].get('hdepth', 1))
 
   def __call__(self, xs, ct, tvars, tins):
     d = DESCS[self.did]
@@ -159,7 +160,7 @@ class Outer(nn.Module):
         o = self.inner(*xs)
         ys.append(o[0] if d.get('has_aux') else o)
       else:
-        ys.append(diff_call(d, self.inner, xs, ct, tvars, tins, nest=('p',)).get('y'))
+        ys.append(diff_call(d, self.inner, xs, ct, tvars, tins, nest=('p',) * d.get('hdepth', 1)).get('y'))
     return ys
 
 
@@ -247,10 +248,21 @@ def run_case(d, did):
   out['ref'] = safe(ref)
 
   def hist_impl():
-    vars2 = {c: {'inner': t} for c, t in variables.items()}
+    hd = d.get('hdepth', 1)
+    def wrap(t):
+      t = t['p']
+      for _ in range(hd):
+        t = {'p': t}
+      return {'inner': t}
+    vars2 = {c: wrap(t) for c, t in variables.items()}
     ys, upd = Outer(did).apply(vars2, xs, ct, tvars, tins, mutable=mutable)
     after = {**vars2, **flax.core.unfreeze(upd)}
-    return {'ys': [None if y is None else float(y) for y in ys], 'vars_after': [float(after[v['col']]['inner']['p'][v['name']]) for v in d['vars']]}
+    def leaf(col, name):
+      t = after[col]['inner']
+      for _ in range(hd):
+        t = t['p']
+      return float(t[name])
+    return {'ys': [None if y is None else float(y) for y in ys], 'vars_after': [leaf(v['col'], v['name']) for v in d['vars']]}
 
   def hist_ref():
     cur = {c: t['p'] for c, t in variables.items()}
@@ -288,7 +300,61 @@ def run_case(d, did):
   return out
 
 
+def multi_scope(c):
+  """lift.vjp over a dict / tuple of scopes sitting at different depths of the scope tree, each holding a parameter of the same name and shape:
+  every scope gets the cotangent of ITS parameter. c: depths (per scope), vals, x, ct, as_tuple"""
+  from flax.core import apply as core_apply, lift
+  n = len(c['depths'])
+  x, ct = jnp.asarray(float(c['x'])), jnp.asarray(float(c['ct']))
+  names = ['s%d' % i for i in range(n)]
+
+  def poly(ws, x):
+    # asymmetric in the scopes: w_i enters with weight (i + 2) and power (i + 1)
+    return sum((i + 2.0) * (w ** (i + 1)) for i, w in enumerate(ws)) * x + x * x
+
+  def path_of(i):
+    return ['lvl%d_%d' % (i, k) for k in range(c['depths'][i] - 1)] + [names[i]]
+
+  def body(scopes, x):
+    seq = [scopes[nm] for nm in names] if not c['as_tuple'] else list(scopes)
+    ws = [sc.param('w', lambda key: jnp.asarray(0.0)) for sc in seq]
+    return poly(ws, x)
+
+  def top(scope, x, ct):
+    scs = []
+    for i in range(n):
+      sc = scope
+      for part in path_of(i):
+        sc = sc.push(part)
+      scs.append(sc)
+    arg = tuple(scs) if c['as_tuple'] else dict(zip(names, scs))
+    y, bwd = lift.vjp(body, arg, x)
+    vg, xg = bwd(ct)
+    return y, vg, xg
+  variables = {'params': {}}
+  for i in range(n):
+    t = variables['params']
+    for part in path_of(i):
+      t = t.setdefault(part, {})
+    t['w'] = jnp.asarray(float(c['vals'][i]))
+  y, vg, xg = core_apply(top)(variables, x, ct)
+  ws = [jnp.asarray(float(v)) for v in c['vals']]
+  yr, bwdr = jax.vjp(lambda ws, x: poly(ws, x), ws, x)
+  wr, xr = bwdr(ct)
+  got = [float((vg[i] if c['as_tuple'] else vg[names[i]])['params']['w']) for i in range(n)]
+  return {'y': float(y) == float(yr), 'x_grad': float(xg) == float(xr), 'scope_grads': got == [float(g) for g in wr], 'got': got, 'want': [float(g) for g in wr]}
+
+
 def main(payload):
+  if 'multi_scope' in payload:
+    res = []
+    for c in payload['multi_scope']:
+      try:
+        res.append({'ok': multi_scope(c)})
+      except Exception as e:  # pylint: disable=broad-except
+        import traceback
+        res.append({'err': type(e).__name__, 'tb': traceback.format_exc()[-800:]})
+    return {'multi_scope': res}
   res = []
   for i, d in enumerate(payload['cases']):
     try:
